@@ -366,6 +366,21 @@ theorem convert_order (raw R : List Obj) (h : convertArchive raw = some R) :
     · intro o ho
       exact (List.mem_filter.mp ((sortByNat_perm _ _).mem_iff.mp ho)).2
 
+/-- **name mangling**: every normalised absolute location (`/` followed by non-empty components without `/`,
+none of them `.` or `..`) survives `"./" + loc.lstrip("/")` followed by `abspath(join("/", name.strip("/")))` — the
+hypothesis `PathOK` of the round-trip theorems — and has the child prefix `loc + "/"` — the hypothesis `LocNorm` of
+the relocation theorems -/
+theorem pathok_normalised (comps : List Str) (hne : comps ≠ []) (h : ∀ c ∈ comps, GoodComp c) :
+    PathOK ('/' :: joinWith '/' comps) ∧ LocNorm ('/' :: joinWith '/' comps) :=
+  ⟨pathOK_of_normal comps hne h, locNorm_of_normal comps hne h⟩
+
+example : (∀ c ∈ ["usr".toList, "lib64".toList, "a b.so.1".toList], GoodComp c) ∧
+    '/' :: joinWith '/' ["usr".toList, "lib64".toList, "a b.so.1".toList] = "/usr/lib64/a b.so.1".toList := by
+  refine ⟨?_, by decide⟩
+  intro c hc
+  simp only [List.mem_cons, List.not_mem_nil, or_false] at hc
+  rcases hc with rfl | rfl | rfl <;> exact ⟨by decide, by decide, by decide, by decide⟩
+
 /-! ### the hypotheses are satisfiable -/
 
 def exampleSet : List Obj :=
